@@ -4,14 +4,12 @@ import json, os, subprocess
 ROOT = os.path.dirname(os.path.dirname(os.path.abspath(__file__)))
 props = [json.loads(l) for l in open(os.path.join(ROOT, "properties.jsonl"))]
 
-CHECKS = {
- "C11": dict(cat="model_checking", design="DESIGN.md 5/C11",
-   text="TLC enumerates every code-unit sequence up to the bound over a representative alphabet (ASCII, Latin-1-high incl. NBSP, BMP, BOM, lone high/low surrogates, pairs) as the reachable states of the builder model spec/text/JsString.tla and emits the reference result of every string operation; the harness builds each sequence through every constructor of boa_string (Latin-1, UTF-16, from &str, slices, slice of slice, three builders, concatenations) and requires op(c1(u)) = op(c2(u)) = model_op(u) for all unary operations and all binary operations against every second operand. Exhaustive inside the bound, so any representation-dependent result on short strings is found.",
-   note="Trusts TLC, the transcription of ECMA-262 string abstract operations in JsString.tla, and the harness's constructor table; strings longer than the bound and operations not listed in the model (display_escaped, Windows iterator) are not covered.",
-   technique="TLC-enumerated states of a TLA+ builder model replayed into boa_string (spec->impl conformance)"),
-}
+CHECKS = {}
+for f in sorted(os.listdir(os.path.join(ROOT, "tools", "checks"))):
+    if f.endswith(".manifest.json"):
+        CHECKS[f.split(".")[0]] = json.load(open(os.path.join(ROOT, "tools", "checks", f)))
 NA_DEFAULT = "check not built yet (work in progress; see DESIGN.md section 9 for the build order)"
-NA = {}
+NA = json.load(open(os.path.join(ROOT, 'tools', 'not_applicable.json'))) if os.path.exists(os.path.join(ROOT, 'tools', 'not_applicable.json')) else {}
 
 def main():
     hooks = subprocess.run(["git", "-C", "/repo", "log", "--format=%h %s"], stdout=subprocess.PIPE, text=True).stdout.splitlines()
